@@ -93,3 +93,11 @@ Proof.
   - inversion H; subst; left; auto.
   - right; apply In_remove_key in H; assumption.
 Qed.
+
+Lemma nth_error_ext_eq' {A} (l l' : list A) : (forall n, nth_error l n = nth_error l' n) -> l = l'.
+Proof.
+  revert l'; induction l as [|h t IH]; intros [|h' t'] H; auto.
+  - specialize (H 0); discriminate.
+  - specialize (H 0); discriminate.
+  - pose proof (H 0) as H0; simpl in H0; inversion H0; subst. f_equal. apply IH. intros n. apply (H (S n)).
+Qed.
